@@ -26,10 +26,22 @@ const sidLin = 2
 type big struct {
 	id, a, b, c uint64
 	ttlClass    int64
+	pad         [24]uint64
 }
 
-func mkBig(id uint64, ttl int64) big { return big{id, id * 3, ^id, id ^ 0x5555555555555555, ttl} }
+func mkBig(id uint64, ttl int64) big {
+	v := big{id: id, a: id * 3, b: ^id, c: id ^ 0x5555555555555555, ttlClass: ttl}
+	for i := range v.pad {
+		v.pad[i] = id + uint64(i)
+	}
+	return v
+}
 func (b big) ok() bool {
+	for i := range b.pad {
+		if b.pad[i] != b.id+uint64(i) {
+			return false
+		}
+	}
 	return b.a == b.id*3 && b.b == ^b.id && b.c == b.id^0x5555555555555555
 }
 
@@ -216,6 +228,7 @@ func runStress(m *meta, w *traceWriter, rng *rand.Rand, sc stressCfg, round int)
 						if ok {
 							if (v.ttlClass < 0) != (ttl == -1) || (v.ttlClass > 0 && (int64(ttl) > v.ttlClass || int64(ttl) < v.ttlClass-int64(time.Minute))) {
 								m.violate("C11", fmt.Sprintf("%s: GetWithTTL(key %d) paired value of ttl class %d with remaining %d (mixture of two writes)", ctx, k, v.ttlClass, ttl), ctx)
+								m.violate("C05", fmt.Sprintf("%s: GetWithTTL(key %d) reports remaining %d for an entry written with TTL %d", ctx, k, ttl, v.ttlClass), ctx)
 							}
 						}
 					} else {
@@ -359,15 +372,15 @@ func asyncOrder(m *meta, rng *rand.Rand, round int) {
 	ctx := fmt.Sprintf("async round %d cfg %+v", round, conf)
 	c, err := kioshun.New[int, int](conf)
 	must(err)
-	nk := 2 + rng.Intn(6)
-	per := 200 + rng.Intn(800)
+	nk := 2 + rng.Intn(14)
+	per := 300 + rng.Intn(2500)
 	var wg sync.WaitGroup
 	last := make([]int, nk)
 	watch(ctx)
 	for k := 0; k < nk; k++ {
 		wg.Add(1)
 		k := k
-		mode := rng.Intn(3)
+		mode := rng.Intn(5) // 0,3,4: SetAsync only
 		go func() {
 			defer wg.Done()
 			for v := 1; v <= per; v++ {
@@ -448,8 +461,8 @@ func asyncOrder(m *meta, rng *rand.Rand, round int) {
 
 // closeRaces (C07 C08): Close racing producers blocked on a full ring, Sync, Clear, listeners that re-enter.
 func closeRaces(m *meta, rng *rand.Rand, round int) {
-	conf := kioshun.Config{MaxSize: pick(rng, []int64{0, 4, 64}), ShardCount: pick(rng, []int{1, 2}), WriteBufferSize: 2, WriteBatchSize: 1,
-		EvictionPolicy: pick(rng, []kioshun.EvictionPolicy{kioshun.LRU, kioshun.SieveTinyLFU, kioshun.LFU}), StatsEnabled: true,
+	conf := kioshun.Config{MaxSize: pick(rng, []int64{0, 4, 64, 64}), ShardCount: pick(rng, []int{1, 2}), WriteBufferSize: 2, WriteBatchSize: 1,
+		EvictionPolicy: pick(rng, []kioshun.EvictionPolicy{kioshun.LRU, kioshun.SieveTinyLFU, kioshun.SieveTinyLFU, kioshun.LFU}), StatsEnabled: true,
 		CleanupInterval: pick(rng, []time.Duration{0, time.Millisecond})}
 	ctx := fmt.Sprintf("close round %d cfg %+v", round, conf)
 	base := runtime.NumGoroutine()
@@ -461,18 +474,18 @@ func closeRaces(m *meta, rng *rand.Rand, round int) {
 		if slow {
 			time.Sleep(200 * time.Microsecond)
 		}
-		c.Get(k + 1)
-		c.Exists(k)
 		if closedRet.Load() {
 			afterClose.Add(1)
 		}
+		c.Get(k + 1)
+		c.Exists(k)
 	}))
 	must(err)
 	var wg sync.WaitGroup
 	stop := make(chan struct{})
 	var accepted, refused atomic.Int64
 	watch(ctx)
-	for g := 0; g < 6; g++ {
+	for g := 0; g < 12; g++ {
 		wg.Add(1)
 		g := g
 		go func() {
@@ -512,10 +525,9 @@ func closeRaces(m *meta, rng *rand.Rand, round int) {
 	var cw sync.WaitGroup
 	for i := 0; i < 3; i++ {
 		cw.Add(1)
-		go func() { defer cw.Done(); c.Close() }()
+		go func() { defer cw.Done(); c.Close(); closedRet.Store(true) }()
 	}
 	cw.Wait()
-	closedRet.Store(true)
 	// once ANY Close has returned the cache must be final
 	if e := c.Set(1, 1, 0); !errors.Is(e, kioshun.ErrCacheClosed) {
 		m.violate("C08", ctx+": Set succeeded after Close returned", ctx)
@@ -526,6 +538,15 @@ func closeRaces(m *meta, rng *rand.Rand, round int) {
 	close(stop)
 	wg.Wait()
 	unwatch()
+	for k := 0; k < 50; k++ {
+		if v, ok := c.Get(k); ok {
+			m.violate("C08", fmt.Sprintf("%s: Get(%d) returned %d after Close had returned", ctx, k, v), ctx)
+			break
+		}
+	}
+	if n := afterClose.Load(); n > 0 {
+		m.violate("C08", fmt.Sprintf("%s: the removal listener was invoked %d times after a Close call had returned (notifier still running)", ctx, n), ctx)
+	}
 	deadline := time.Now().Add(3 * time.Second)
 	for runtime.NumGoroutine() > base && time.Now().Before(deadline) {
 		time.Sleep(time.Millisecond)
@@ -534,6 +555,101 @@ func closeRaces(m *meta, rng *rand.Rand, round int) {
 		m.violate("C08", fmt.Sprintf("%s: %d goroutines still alive 3 s after Close returned", ctx, n-base), ctx)
 	}
 	m.count("close_rounds")
+}
+
+// expiryRace (C07 C05 C02): a short-TTL key re-written while readers hit its expiry path.
+func expiryRace(m *meta, rng *rand.Rand, round int) {
+	conf := kioshun.Config{MaxSize: pick(rng, []int64{8, 64}), ShardCount: 1, EvictionPolicy: pick(rng, []kioshun.EvictionPolicy{kioshun.SieveTinyLFU, kioshun.SieveTinyLFU, kioshun.LRU, kioshun.FIFO}), StatsEnabled: true}
+	ctx := fmt.Sprintf("expiry race round %d cfg %+v", round, conf)
+	c, err := kioshun.New[int, int](conf)
+	must(err)
+	stop := make(chan struct{})
+	var wg sync.WaitGroup
+	watch(ctx)
+	for g := 0; g < 4; g++ {
+		wg.Add(1)
+		go func() {
+			defer wg.Done()
+			defer func() {
+				if p := recover(); p != nil {
+					m.violate("C11", fmt.Sprintf("%s: panic in a public call: %v", ctx, p), ctx)
+				}
+			}()
+			for {
+				select {
+				case <-stop:
+					return
+				default:
+				}
+				c.Get(1)
+				c.GetWithTTL(2)
+			}
+		}()
+	}
+	for i := 0; i < 300; i++ {
+		c.Set(1, i, 150*time.Microsecond)
+		c.Set(2, i, 90*time.Microsecond)
+		if i%16 == 0 {
+			c.Cleanup()
+		}
+		time.Sleep(100 * time.Microsecond)
+	}
+	close(stop)
+	wg.Wait()
+	c.Set(3, 3, 0)
+	c.Delete(1)
+	c.Sync()
+	c.Close()
+	unwatch()
+	m.count("expiry_race_rounds")
+}
+
+// tornRace (C11): one writer rewrites one non-expiring key in a tight loop while readers copy its multi-word value.
+func tornRace(m *meta, rng *rand.Rand, round int) {
+	conf := kioshun.Config{MaxSize: 64, ShardCount: 1, EvictionPolicy: pick(rng, []kioshun.EvictionPolicy{kioshun.SieveTinyLFU, kioshun.SieveTinyLFU, kioshun.LRU})}
+	ctx := fmt.Sprintf("torn race round %d cfg %+v", round, conf)
+	c, err := kioshun.New[int, big](conf)
+	must(err)
+	for i := 0; i < 40; i++ {
+		c.Set(100+i, mkBig(uint64(i+1), -1), kioshun.NoExpiration)
+	}
+	stop := make(chan struct{})
+	var wg sync.WaitGroup
+	var torn atomic.Int64
+	for g := 0; g < 4; g++ {
+		wg.Add(1)
+		go func() {
+			defer wg.Done()
+			defer func() {
+				if p := recover(); p != nil {
+					m.violate("C11", fmt.Sprintf("%s: panic in a public call: %v", ctx, p), ctx)
+				}
+			}()
+			for {
+				select {
+				case <-stop:
+					return
+				default:
+				}
+				if v, ok := c.Get(7); ok && !v.ok() {
+					torn.Add(1)
+				}
+			}
+		}()
+	}
+	watch(ctx)
+	for i := 0; i < 60000; i++ {
+		c.Set(7, mkBig(uint64(1000+i), -1), kioshun.NoExpiration)
+	}
+	close(stop)
+	wg.Wait()
+	unwatch()
+	if n := torn.Load(); n > 0 {
+		m.violate("C11", fmt.Sprintf("%s: %d lookups returned a value mixing two writes", ctx, n), ctx)
+		m.violate("C02", fmt.Sprintf("%s: %d lookups returned a value no single Set supplied", ctx, n), ctx)
+	}
+	c.Close()
+	m.count("torn_race_rounds")
 }
 
 // tableRace (C12 C11): the real table, one writer (store/remove/clear/growth) against lock-free readers.
@@ -633,10 +749,14 @@ func streamConc(o opts) {
 			m.nontrivial(fmt.Sprintf("stress/p%d/m%d/s%d/a%v", pol, sc.conf.MaxSize, sc.conf.ShardCount, sc.async))
 		case 2:
 			asyncOrder(m, rng, r)
-			closeRaces(m, rng, r)
+			for j := 0; j < 6; j++ {
+				closeRaces(m, rng, r)
+			}
+			expiryRace(m, rng, r)
 			m.nontrivial(fmt.Sprintf("async+close/%d", r%16))
 		case 3:
 			tableRace(m, rng, r)
+			tornRace(m, rng, r)
 			m.nontrivial(fmt.Sprintf("table/%d", r%16))
 		}
 		if r < 3 {
